@@ -319,6 +319,8 @@ def main():
     flood = strip_comments(read("src/flood_fill_iterator.rs"))
     himpl = strip_comments(read("src/delaunay_core/handles/handle_impls.rs"))
     pubh = strip_comments(read("src/delaunay_core/handles/public_handles.rs"))
+    dcel_src = strip_comments(read("src/delaunay_core/dcel.rs"))
+    cdt_src = strip_comments(read("src/cdt.rs"))
     out = []
     w = out.append
     w("/- GENERATED by translator/t0.py from /repo's current source — do not edit. -/")
@@ -735,6 +737,91 @@ def main():
         w("  FL.lt (dist2 ⟨2 * query_point.x, 2 * query_point.y⟩ ⟨edge_from.x + edge_to.x, edge_from.y + edge_to.y⟩) (dist2 edge_from edge_to)")
         w("")
     guarded("is_encroaching_edge", encroach)
+
+    # --- fixed edge-handle arithmetic (handle_impls.rs) and the half-edge storage address (dcel.rs):
+    # one index operator and one literal per function, translated as written
+    def handles():
+        OPS = {"^": "^^^", "&": "&&&", "|": "|||", ">>": ">>>", "<<": "<<<", "+": "+", "-": "-", "*": "*", "/": "/", "%": "%"}
+        OP = r"(\^|&|\||>>|<<|\+|-|\*|/|%)"
+        LIT = r"(0x[0-9a-fA-F]+|\d+)"
+        dimpl = himpl[himpl.index("impl FixedDirectedEdgeHandle {"):]
+        dimpl = dimpl[:dimpl.index("\nimpl", 10)]
+        uimpl = himpl[himpl.index("impl FixedUndirectedEdgeHandle {"):]
+        uimpl = uimpl[:uimpl.index("\nimpl", 10)]
+
+        def body(src, n):
+            return re.sub(r"\s+", "", find_fn(src, n)[1])
+
+        def arith(src, n, pat):
+            m = re.fullmatch(pat, body(src, n))
+            if not m:
+                raise ValueError(f"{n}: unexpected shape: {body(src, n)[:80]}")
+            return m
+        m = arith(dimpl, "new_normalized", r"Self::new\(index" + OP + LIT + r"\)")
+        w("/-- `FixedDirectedEdgeHandle::{new_normalized,is_normalized,normalize_index,rev,as_undirected}` on indices -/")
+        w(f"def hNewNormalized (index : Nat) : Nat := index {OPS[m.group(1)]} {int(m.group(2), 0)}")
+        m = arith(dimpl, "is_normalized", r"self\.index\(\)" + OP + LIT + r"(==|!=)" + LIT)
+        w(f"def hIsNormalized (e : Nat) : Bool := (e {OPS[m.group(1)]} {int(m.group(2), 0)}) {m.group(3)} {int(m.group(4), 0)}")
+        m = arith(dimpl, "normalize_index", r"self\.index\(\)" + OP + LIT)
+        w(f"def hNormalizeIndex (e : Nat) : Nat := e {OPS[m.group(1)]} {int(m.group(2), 0)}")
+        m = arith(dimpl, "rev", r"Self::new\(self\.index\(\)" + OP + LIT + r"\)")
+        w(f"def hRev (e : Nat) : Nat := e {OPS[m.group(1)]} {int(m.group(2), 0)}")
+        m = arith(dimpl, "as_undirected", r"FixedHandleImpl::new\(self\.index\(\)" + OP + LIT + r"\)")
+        w(f"def hAsUndirected (e : Nat) : Nat := e {OPS[m.group(1)]} {int(m.group(2), 0)}")
+        fns = {"new_normalized": "hNewNormalized", "rev": "hRev", "as_directed": "hAsDirected"}
+        if body(uimpl, "as_directed") != "FixedDirectedEdgeHandle::new_normalized(self.index())":
+            raise ValueError("as_directed: unexpected shape")
+        w("/-- `FixedUndirectedEdgeHandle::{as_directed,normalized,not_normalized}` -/")
+        w("def hAsDirected (u : Nat) : Nat := hNewNormalized u")
+
+        def chain(n):
+            b = body(uimpl, n)
+            m = re.fullmatch(r"self((?:\.[a-z_]+\(\))+)", b)
+            if not m:
+                raise ValueError(f"{n}: unexpected shape")
+            e = "u"
+            for c in re.findall(r"\.([a-z_]+)\(\)", m.group(1)):
+                if c not in fns:
+                    raise ValueError(f"{n}: unknown call {c}")
+                e = f"({fns[c]} {e})"
+            return e
+        w(f"def hNormalized (u : Nat) : Nat := {chain('normalized')}")
+        w(f"def hNotNormalized (u : Nat) : Nat := {chain('not_normalized')}")
+        # dcel.rs: where a half edge and the undirected data (constraint flag) live
+        sl = {"as_undirected": "hAsUndirected", "normalize_index": "hNormalizeIndex"}
+        got = None
+        for n, amp, ent in (("half_edge", "&", "edge_entry"), ("half_edge_mut", "&mut", "edge_entry_mut")):
+            m = re.fullmatch(r"letentry=self\." + ent + r"\(handle\.([a-z_]+)\(\)\);" + amp + r"entry\.entries\[handle\.([a-z_]+)\(\)\]", body(dcel_src, n))
+            if not m or m.group(1) not in sl or m.group(2) not in sl:
+                raise ValueError(f"{n}: unexpected shape")
+            if got is not None and got != (m.group(1), m.group(2)):
+                raise ValueError("half_edge and half_edge_mut address different slots")
+            got = (m.group(1), m.group(2))
+        for n in ("edge_entry", "edge_entry_mut"):
+            if body(dcel_src, n) not in ("&self.edges[handle.index()]", "&mutself.edges[handle.index()]"):
+                raise ValueError(f"{n}: unexpected shape")
+        for n in ("undirected_edge_data", "undirected_edge_data_mut"):
+            if not re.fullmatch(r"&(mut)?self\.edge_entry(_mut)?\(handle\)\.undirected_data", body(dcel_src, n)):
+                raise ValueError(f"{n}: unexpected shape")
+        w("/-- `Dcel::{half_edge,half_edge_mut}`: (entry of `edges`, slot of `entries`) holding half edge `e`;")
+        w("    `undirected_edge_data{,_mut}` of an undirected handle `u` reads `edges[u].undirected_data` -/")
+        w(f"def halfEdgeSlot (e : Nat) : Nat × Nat := ({sl[got[0]]} e, {sl[got[1]]} e)")
+        # cdt.rs / handle_impls.rs: the flag of a directed edge is the flag of `as_undirected`
+        b = body(himpl[himpl.index("pub fn as_undirected(self) -> UndirectedEdgeHandle"):], "as_undirected")
+        if b != "DynamicHandleImpl::new(self.dcel,self.handle.as_undirected())":
+            raise ValueError("DirectedEdgeHandle::as_undirected: unexpected shape")
+        cimpl = himpl[himpl.index("impl<V, DE, UE, F> DirectedEdgeHandle<'_, V, DE, CdtEdge<UE>, F>"):]
+        if body(cimpl, "is_constraint_edge") != "self.as_undirected().is_constraint_edge()":
+            raise ValueError("DirectedEdgeHandle::is_constraint_edge: unexpected shape")
+        cimpl = himpl[himpl.index("impl<V, DE, UE, F> UndirectedEdgeHandle<'_, V, DE, CdtEdge<UE>, F>"):]
+        if body(cimpl, "is_constraint_edge") != "self.data().is_constraint_edge()":
+            raise ValueError("UndirectedEdgeHandle::is_constraint_edge: unexpected shape")
+        if body(cdt_src, "is_constraint_edge") != "self.0":
+            raise ValueError("CdtEdge::is_constraint_edge: unexpected shape")
+        w("/-- `DirectedEdgeHandle::is_constraint_edge` = flag stored at `edges[as_undirected e]` -/")
+        w("def flagEntryOfDirected (e : Nat) : Nat := hAsUndirected e")
+        w("")
+    guarded("handles", handles)
 
     w("end Spade.Generated")
     text = "\n".join(out) + "\n"
